@@ -428,7 +428,7 @@ async def companion_cases(xs):
     for x in xs:
         api.device_level = x / 100.0
         await api.handler({"_mcF": int(MediaControlFlags.Volume)})
-        reported = audio._volume
+        reported = api.device_level * 100.0        # what the device said, computed here (not read back)
         try:
             rd = ("ok", atv.audio.volume)
         except Exception as exc:
@@ -526,6 +526,7 @@ class Rig:
 
     def begin(self, optok):
         self.cur = [optok, []]
+        self.entries_last = self.cur
         self.entries.append(self.cur)
 
     def ev(self, s):
@@ -950,9 +951,11 @@ class MrpRig(Rig):
 
         self.audio.set_volume = set_volume
         self.atv = await make_atv(core, Protocol.MRP, self.audio)
+        self.expected = None
+        self.report_checks = []      # (kind, level the device last reported, what happened)
         await self.device_reports(initial)
         self.entries.clear()
-        self.initial_volume = self.audio._volume
+        self.initial_volume = self.expected
         return self
 
     async def device_reports(self, device_level, uid="verif-uid"):
@@ -968,7 +971,11 @@ class MrpRig(Rig):
             return
         await self.proto.listeners[self.protobuf.VOLUME_DID_CHANGE_MESSAGE](msg)
         if uid == "verif-uid":
-            self.entries.append(["p:" + tok(self.audio._volume), []])
+            # what the device said, in percent, computed HERE from the wire value (binary32) —
+            # not read back from the object under test: a handler that alters the reported level
+            # (clamps, snaps, ignores it) then disagrees with the model and with the oracle
+            self.expected = round(msg.inner().volume * 100.0, 1)
+            self.entries.append(["p:" + tok(self.expected), []])
         else:
             self.entries.append(["o:" + tok(msg.inner().volume * 100.0), []])
 
@@ -977,6 +984,7 @@ LEVEL_POOL = [0.0, -0.0, 100.0, 5.0, 95.0, 2.5, 97.5, 4.999999999999999, 95.0000
               5e-324, 1e-300, 1e-9, 100.00000000000001, -5e-324, -1.0, 101.0, 150.0, -50.0, NAN, INF, -INF, 1e30]
 
 
+REPORT_POOL = [100.4, 100.04, 100.05, 100.06, 150.0, -1.0, -0.04, -0.05, -0.06, -100.0, 99.96, 0.04, 1e30, NAN, INF, -INF]
 INITIAL_POOL = [None, None, -15.0, -30.0, 0.0, -144.0, -20.5, -7.25, -50.0, 5.0, NAN, INF, -INF]
 OTHER_UIDS = ["other-speaker", "", "verif-uid-2", "VERIF-UID"]
 
@@ -1017,8 +1025,10 @@ def random_history(rng, n, proto="raop"):
         elif k < 0.87:
             ops.append(("read", None))
         else:
-            x = rng.choice(LEVEL_POOL) if rng.chance(0.6) else rng.uniform(-20, 120)
+            x = rng.choice(LEVEL_POOL + REPORT_POOL) if rng.chance(0.6) else rng.uniform(-20, 120)
             ops.append(("report", x))
+            if rng.chance(0.5):
+                ops.append((rng.choice(["read", "up", "down"]), None))
     return ops
 
 
@@ -1057,7 +1067,10 @@ async def run_mrp_history(ops, initial):
         else:
             if op == "set" and x is not None and isinstance(x, float) and math.isfinite(x) and int(x * 7) % 11 == 0:
                 rig.hostile = (x - 60.0) / 100.0      # now and then the device answers with nonsense
+            reported = rig.expected
             await rig.user_op(op, x)
+            if op in ("read", "up", "down"):
+                rig.report_checks.append((op, reported, list(rig.entries_last[1])))
         await rig.flush()
     return rig
 
@@ -1088,6 +1101,21 @@ def history_problems(proto, ops, rig, utils):
                 problems.append((f"{proto}:set-wrong-exception", f"set_volume({x!r}) -> {evs} (ProtocolError required)"))
         elif op == "read" and raised and raised != ["protocol"]:
             problems.append((f"{proto}:read-wrong-exception", f"audio.volume raised {raised}"))
+    # device side (MRP): the level the device reported for our output device is what
+    # audio.volume returns if it is within 0..100, else ProtocolError; absolute-only steps from
+    # an out-of-range reported level are refused with ProtocolError, nothing is sent
+    for op, reported, evs in getattr(rig, "report_checks", []):
+        if reported is None:
+            continue
+        if op == "read":
+            want = ["ret:" + tok(reported)] if in_pct(reported) else ["raise:protocol"]
+            if evs != want and not (in_pct(reported) and len(evs) == 1 and evs[0].startswith("ret:") and same(evs[0][4:], reported)):
+                problems.append((f"{proto}:reported-level-not-respected",
+                                 f"the device reported {reported!r} %, audio.volume -> {evs} (expected {want})"))
+        elif not in_pct(reported) and not (reported == (100.0 if op == "up" else 0.0)):
+            if evs != ["raise:protocol"]:
+                problems.append((f"{proto}:step-from-invalid-report",
+                                 f"the device reported {reported!r} %, volume_{op} -> {evs} (ProtocolError required, nothing sent)"))
     # read-back: while nothing else changed the level, audio.volume returns the level last set
     for want, got in getattr(rig, "readbacks", []):
         if not isinstance(got, (int, float)) or abs(got - want) > TOL_READBACK:
@@ -1229,6 +1257,9 @@ def fixed_histories():
             ("raop2", [("set", 20.0), ("B:report", 70.0), ("read", None), ("B:up", None), ("read", None), ("B:read", None)], {"client": True}),
             ("raop2", [("B:set", 0.0), ("set", 100.0), ("B:stream", -15.0), ("read", None), ("stream", None), ("B:read", None), ("read", None)], {"client": False}),
         ]
+        for lvl in REPORT_POOL + [100.0, 0.0, 50.0]:     # device report, then read / step / read
+            fixed.append(("mrp", [("report", lvl), ("read", None), ("up", None), ("read", None), ("report", lvl), ("down", None), ("read", None)], {"initial": 0.5}))
+            fixed.append(("raop", [("report", lvl), ("read", None), ("up", None), ("read", None)], {"client": False}))
         # the multi-device cases first
         fixed.sort(key=lambda t: t[0] != "raop2")
         return fixed
